@@ -250,10 +250,30 @@ func (c *kase) checkGet(what string, line, got string, exp *[]byte, panicked boo
 // back) that an iteration over prefix p can meet are: non-empty, at most 245 bytes, none of them a proper
 // byte-prefix of another, none a proper byte-prefix of p. The recorded iterator finding is about stored keys only (the VersionedIterator's seek
 // past prefixEnd(userKey)); pending, uncommitted keys go through the TxnIterator merge, which must be exact
-// whatever their shape — in particular when a pending key equals the iteration prefix.
+// whatever their prefix relations — in particular when a pending key equals the iteration prefix.
 func (c *kase) dbClean(p []byte) bool {
+	// pending keys may have any shape but the degenerate ones WFKeys also excludes: the empty key (it ends a
+	// transaction's forward run at once) and keys longer than 245 bytes
+	layers := append([]refLayer{}, c.ref.main...)
+	for _, h := range c.ref.copies {
+		layers = append(layers, h.layers...)
+	}
+	for _, l := range layers {
+		for k := range l {
+			if len(k) == 0 || len(k) > 245 {
+				return false
+			}
+		}
+	}
 	var under []string
+	stored := map[string]bool{}
 	for k := range c.ref.hist {
+		stored[k] = true
+	}
+	for k := range c.ref.abandoned { // a rollback does not reach entries of over-long keys: count them as stored
+		stored[k] = true
+	}
+	for k := range stored {
 		if strings.HasPrefix(k, string(p)) {
 			if len(k) == 0 || len(k) > 245 {
 				return false // the other clauses of WFKeys: non-empty, at most 245 bytes
